@@ -45,8 +45,8 @@ CASE_TIMEOUT_S = 900
 HOSTILES = {
     'unroll': ['unroll_neg_step', 'loopvar_after', 'unroll_cycle'],
     'fusion': ['loopvar_after'],
-    'fission': ['loopvar_after', 'fission_promote_lb', 'fission_array_shape'],
-    'interchange': ['loopvar_after', 'interchange_project_perm'],
+    'fission': ['fission_promote_lb', 'fission_array_shape'],
+    'interchange': ['interchange_project_perm'],
     'split': ['split_empty_step', 'loopvar_after', 'block_start_ne_1'],
 }
 KINDS = ['unroll', 'fusion', 'fission', 'interchange', 'split']
